@@ -714,6 +714,13 @@ impl<'a> Body<'a> {
             self.note("R12", format!("comparator closure of the selection replaced by {name}; closure text hash {h}{changed}"));
             let id = ident(name);
             quote!(#id)
+        } else if let (Expr::Path(_), Some(tag)) = (&cmp, self.pipeline_opt("pipeline_cmp")) {
+            // a comparator function named by path: the call names it by the unit's tag struct (a value that specifications can
+            // mention); what the function computes is established where the function is (lane K for compare_hits)
+            let name = tag.split_whitespace().next().unwrap_or("").to_string();
+            self.note("R12", format!("comparator function `{}` of the selection named by tag {name}", cmp.to_token_stream()));
+            let id = ident(&name);
+            quote!(#id)
         } else {
             cmp.to_token_stream()
         };
